@@ -140,3 +140,8 @@ def run(ctx):
     from . import shared as _sh
     _sh.rule_bitmap_accumulation(ctx, P, r)
     r.require_min(1)
+    r = ctx.rule('R15f', 'backend decode / reconstruct operations do not write through the erasure list they are given',
+                 'decoders that use the caller\'s list as a work queue return it truncated: the front end then skips the rebuilt fragments')
+    from . import shared as _sh2
+    _sh2.rule_missing_list_readonly(ctx, P, r)
+    r.require_min(4)
